@@ -3,7 +3,54 @@ import glob, json, math, os
 from fractions import Fraction
 from harness import common
 
+
+def E_quiet():
+    from harness import implenv
+    return implenv.quiet()
+
 REQ = ["Coq.QArith.QArith", "Verif.lib.ReconnectorBase", "Verif.gen.ReconnectorGen", "Verif.lib.Reconnector"]
+REQ_TUB = REQ + ["Verif.lib.ReconnectorTub"]
+
+
+def coq_tevent(e):
+    if e[0] == "rc":
+        return "TRc %d (%s)" % (e[1], coq_event(e[2]))
+    return {"connectTo": "TConnectTo", "startService": "TStartService", "stopService": "TStopService", "turn": "TTurn"}[e[0]]
+
+
+def coq_tobs(o):
+    head, lst, queue, flags = o
+    return "(%s, %s, %s, %s)" % (common.coq_Z(head), common.coq_list([common.coq_Z(x) for x in lst]),
+                                 common.coq_list([common.coq_Z(x) for x in queue]),
+                                 common.coq_list([common.coq_Z(x) for x in flags]))
+
+
+# fixed witnesses of the Tub-level families (a Tub with several Reconnectors)
+def tub_witnesses():
+    F = Fraction
+    ok, okstop, lost, timer, stop, reset = ("ok", ()), ("ok", ("stop",)), ("lost",), ("timer",), ("stop",), ("reset",)
+    fail = ("fail", F(1, 2), 1)
+    W = {
+        # stopConnecting while still queued (before startService / in the turn of startService), then the Tub starts
+        "queued-stop-then-start": [("connectTo",), ("rc", 0, stop), ("startService",), ("turn",)],
+        "stop-in-the-turn-of-startService": [("connectTo",), ("connectTo",), ("startService",), ("rc", 1, stop), ("turn",), ("turn",),
+                                             ("rc", 0, ok), ("rc", 0, lost), ("rc", 0, timer)],
+        "queued-reset-stop-reset": [("connectTo",), ("rc", 0, reset), ("rc", 0, stop), ("rc", 0, reset), ("startService",), ("turn",)],
+        # Tub.stopService with Reconnectors in every state: queued, connecting, connected, waiting, stopped
+        "stopService-every-state": [("connectTo",), ("startService",), ("connectTo",), ("connectTo",), ("connectTo",), ("connectTo",),
+                                    ("turn",), ("rc", 1, ok), ("rc", 2, fail), ("rc", 3, stop), ("stopService",),
+                                    ("rc", 0, ok), ("rc", 4, fail), ("rc", 1, lost), ("rc", 2, reset)],
+        "stopService-five-waiting": [("startService",)] + [("connectTo",)] * 5 + [("rc", k, fail) for k in range(5)]
+                                    + [("stopService",)],
+        "stopService-in-the-turn-of-startService": [("connectTo",), ("connectTo",), ("startService",), ("stopService",), ("turn",), ("turn",)],
+        # the same Reconnector stopped twice / from inside its callback / after the Tub stopped
+        "stop-twice": [("startService",), ("connectTo",), ("connectTo",), ("rc", 0, stop), ("rc", 0, stop), ("rc", 1, okstop),
+                       ("rc", 1, stop), ("stopService",)],
+        "connectTo-after-others-stopped": [("startService",), ("connectTo",), ("rc", 0, stop), ("connectTo",), ("rc", 1, ok),
+                                           ("connectTo",), ("rc", 1, lost), ("rc", 2, fail), ("rc", 1, timer), ("stopService",)],
+    }
+    return sorted(W.items())
+
 
 
 def coq_event(ev):
@@ -53,15 +100,26 @@ def run(ctx):
                 "in the same batch ('later'): ALL sequences up to the tier's length + seeded long ones; executed on the real "
                 "Reconnector with fake Tub, virtual clocks, scripted normalvariate; the model history is the order in which "
                 "the Reconnector's entry points were really invoked; distinct = distinct sequence; non-trivial = at least "
-                "two operations, one of them start")
+                "two operations, one of them start; (c) round 5: Tub-level events {connectTo, startService, stopService, turn of the "
+                "eventual queue, event e of Reconnector i} on a REAL Tub with up to 5 Reconnectors (only Tub.getReference is replaced "
+                "by one handing out Deferreds the driver fires): 8 fixed witnesses, ALL histories up to the tier's length with <= 2 "
+                "Reconnectors, seeded long ones; (d) fixed failure streaks of 720/1500 (5000) consecutive failed attempts in 5 variants")
     ctx.assumptions = [
         "delays are exact rationals in the model, IEEE doubles in the code: compared with 1e-9 relative tolerance (+1 ns)",
         "random.normalvariate(mu, sigma) is modelled as mu + z*sigma with the draw z an input; the range theorem assumes "
         "|z| <= Zmax <= 1/jitter (8.36 sigmas); beyond that the delay is negative and reactor.callLater asserts",
+        "the Tub's side (connectTo / startService / stopService / _removeReconnector, self.reconnectors, the queued startConnecting "
+        "calls) IS modelled since round 5 (translated from pb.py; C16_tub_*), and 'a Deferred / watcher / timer exists' is derived from "
+        "the outputs of the translated methods (C16_enabled_is_ledger); modelled-not-verified there: Twisted's MultiService, "
+        "foolscap.eventual as a FIFO, the statements of startService/stopService that do not mention the Reconnectors (frame condition)",
+        "that a polite history never makes Tub._removeReconnector raise is checked by the Tub correspondence (every observation carries "
+        "'raised') and three Examples, not proved in general; the raising histories (second stopConnecting, stopConnecting after "
+        "Tub.stopService, stopService in the turn of startService) raise AFTER the Reconnector is silenced: no sentence of C16 is broken",
         "Tub/Deferred/reactor/RemoteReference are the environment: a fake Tub in the enumerations; the assumption that a lost "
         "connection reaches _disconnected (and a finished attempt _connected/_failed) is checked on real Tub/Broker pairs on the "
         "in-memory network with traffic of every kind in flight at the loss (modelled-not-verified: Twisted's Deferred and DelayedCall)",
-        "logging, _last_failure and the informational ReconnectionInfo timestamps are not modelled (white-listed statements)",
+        "logging, _last_failure and the informational ReconnectionInfo timestamps (lastAttempt / nextAttempt) are not modelled "
+        "(white-listed statements); ReconnectionInfo.state is (info_agrees)",
         "'after stopConnecting returned' is judged on the order of the actual invocations (flag set when the call returns, "
         "checked inside the user callback, getReference, callLater and notifyOnDisconnect), after every operation and "
         "after a final drain of the eventual queue",
@@ -161,6 +219,70 @@ def run(ctx):
                                                 turn_before_loss=rd["turn_before_loss"]) for rd in rounds], stop_stage=stop_stage))
     ctx.extra["real_stack_histories"] = len(real) + len(rworst)
 
+    # ---- 1c. a REAL Tub with ALL its Reconnectors (connectTo before/after startService, the eventual queue delivering
+    #      the queued startConnecting calls, stopService, and the events of the individual Reconnectors interleaved):
+    #      fixed witnesses, ALL Tub-level histories up to the tier's length (<= 2 Reconnectors), seeded long ones (<= 5)
+    tubs = []
+    tworst = {}
+
+    def tub_case(h, src):
+        obs, viol, done = impl.run_tub_history(h)
+        ctx.case(["tub"] + [impl.tev_json(e) for e in h], nontrivial=len(h) >= 2)
+        ctx.hist("source", src)
+        ctx.hist("tub_last_event", h[-1][0] if h[-1][0] != "rc" else "rc." + h[-1][2][0])
+        if viol:
+            if viol.sig not in tworst or len(h) < len(tworst[viol.sig][1]):
+                tworst[viol.sig] = (viol, h)
+        elif done == len(h):
+            tubs.append((h, obs))
+        return viol, done
+    for name, h in tub_witnesses():
+        viol, done = tub_case(h, "tub-witness")
+        if viol is None and done != len(h):
+            ctx.fail("corpus-not-permitted", "Tub witness %s: event %d (%s) is not enabled on the real Tub"
+                     % (name, done, impl.tev_name(h[done])), replay=dict(witness=name), has_input=False)
+    tdepth = ctx.n(5, 6)
+    ntub = [0]
+
+    def on_tnode(path, obs, viol):
+        ntub[0] += 1
+        ctx.case(["tub"] + [impl.tev_json(e) for e in path], nontrivial=len(path) >= 2)
+        ctx.hist("source", "tub-exhaustive")
+        if viol:
+            if viol.sig not in tworst or len(path) < len(tworst[viol.sig][1]):
+                tworst[viol.sig] = (viol, list(path))
+        else:
+            tubs.append((list(path), obs))
+    impl.dfs_tub(tdepth, on_tnode)
+    ctx.extra["tub_enumeration_depth"] = tdepth
+    ctx.extra["tub_enumerated_histories"] = ntub[0]
+    for k in range(ctx.n(200, 4000)):
+        L = ctx.rng.randint(6, 40)
+        drv = impl.TubDriver()
+        h = []
+        try:
+            with E_quiet():
+                for i in range(L):
+                    nrc = len(drv.rcs)
+                    cand = [e for e in impl.tub_alphabet(nrc, i) + [("rc", kk, ("ok", ("reset",))) for kk in range(nrc)]
+                            if drv.enabled(e) and not (e[0] == "connectTo" and nrc >= 5)]
+                    if not cand:
+                        break
+                    w = [(0.15 if e[0] == "stopService" else 0.4 if (e[0] == "rc" and "stop" in str(e[2])) else 1.0) for e in cand]
+                    e = ctx.rng.choices(cand, w)[0]
+                    if e[0] == "rc" and e[2][0] == "fail":
+                        e = ("rc", e[1], ("fail", Fraction(ctx.rng.randint(-128, 128), 16), ctx.rng.randint(0, 4)))
+                    h.append(e)
+                    drv.do(e)
+        finally:
+            drv.close()
+        if h:
+            tub_case(h, "tub-seeded")
+    for sig, (viol, h) in sorted(tworst.items()):
+        ctx.fail(sig, viol.what + "  [Tub history: %s]" % " ".join(impl.tev_name(e) for e in h),
+                 replay=dict(tub_history=[impl.tev_json(e) for e in h]))
+    ctx.extra["tub_histories"] = len(tubs) + len(tworst)
+
     # ---- 2. exhaustive enumeration on the real object, direct oracle on every node
     depth = ctx.n(8, 11)
     nodes = []
@@ -214,6 +336,24 @@ def run(ctx):
             ctx.hist("synchronous_completions", min(nsync, 5))
             if v3:
                 report(v3, evs, cb_raises=cbr, variant="synchronous completion")
+
+    # ---- 3a. fixed witnesses of the family "unbounded runs of consecutive failures" (weeks of outage): the back-off
+    #      must stay a finite number in range for EVERY number of failures in a row (double range: e**710, phi**1475)
+    streaks = []
+    for name, evs in impl.streak_witnesses(ctx.n([720, 1500], [720, 1500, 5000])):
+        obs, viol, done = impl.run_sequence(evs)
+        ctx.case(["streak", name], nontrivial=True)
+        ctx.hist("source", "failure-streak")
+        if viol:
+            nfail = len([e for e in evs[:done] if e[0] == "fail"])
+            ctx.fail(viol.sig, viol.what[:900] + "  [%s: start, then %d consecutive failed attempts each followed by the expiry "
+                     "of the retry timer]" % (name, nfail), replay=dict(streak=name, events_performed=done))
+        elif name.endswith("-jitter") and len(evs) % 4 == 1:
+            # the model follows the same streak (exact rationals stay small: capped at maxDelay); the events are
+            # generated inside Coq and only the length and the final observation are compared
+            streaks.append((name, (len(evs) - 1) // 4, obs[-1]))
+        elif ctx.tier == "thorough" and name.startswith("streak-720-") and not name.endswith("-resets"):
+            longs.append((evs, obs))
 
     # ---- 3b. the reactor turn structure made explicit: every operation at every point of a turn
     #      (same turn right after an attempt's Deferred fired, between drains of the eventual queue, from inside the
@@ -279,9 +419,75 @@ def run(ctx):
         model_ok, _ = ctx.coq_build(["lib/Reconnector.vo"])
     if model_ok:
         correspond(ctx, depth, nodes, corpus + longs, micro, mtree, real)
+        correspond_streaks(ctx, streaks)
+        correspond_tub(ctx, tubs)
     if not ok and len(ctx.failures) == before:
         ctx.fail("proof-broken", "theorem closure props/C16.vo no longer builds against the regenerated gen/ReconnectorGen.v:\n"
                  + log[-2500:], replay=dict(log=log[-6000:]), has_input=False)
+
+
+def correspond_streaks(ctx, streaks):
+    """long runs of consecutive failures: start, then K times (fail z=1/2, timer, fail z=-1/2, timer); the model must
+    permit all 1+4K events and end in the observation the real Reconnector ended in"""
+    if not streaks:
+        return
+    body = ""
+    for name, K, last in streaks:
+        body += ("Eval vm_compute in (let tr := map pack_obs (trace init_state (Start :: List.concat (List.repeat [AttemptFail (Qmake 1 2); "
+                 "TimerExpired; AttemptFail (Qmake (-1) 2); TimerExpired] %d))) in (Z.of_nat (List.length tr), "
+                 "obs_match (List.last tr (0, 0, 0)%%Z) %s, List.last tr (0, 0, 0)%%Z)).\n" % (K, coq_triple(pack(last))))
+    try:
+        vals = ctx.coq_eval("C16_streak_cases", body, requires=REQ, timeout=600)
+    except common.CoqEvalError as e:
+        ctx.fail("correspondence-broken", "the model could not be evaluated on a failure streak: " + str(e)[-1500:], has_input=False)
+        return
+    for (name, K, last), v in zip(streaks, vals):
+        n, same, m = v
+        if n == 1 + 4 * K and same is True:
+            ctx.traces += 1
+        else:
+            ctx.fail("correspondence/streak", "after %d consecutive failures (%s) model and implementation disagree: the model "
+                     "performed %d of %d events and ends in %r, the implementation in %r" % (2 * K, name, n, 1 + 4 * K, m, pack(last)),
+                     replay=dict(streak=name), has_input=False)
+    ctx.extra["streak_correspondence_cases"] = len(streaks)
+
+
+def correspond_tub(ctx, tubs):
+    """Tub-level histories: the model (translated m_tub_* + dispatcher of lib/ReconnectorTub.v) is run on the same events;
+    compared per event inside Coq: raised?, running, shut down, self.reconnectors (ids, in order), the queued
+    startConnecting calls, and the flags of EVERY Reconnector of the Tub"""
+    from harness import c16_impl as impl
+    if not tubs:
+        return
+    body = ""
+    chunks = [tubs[i:i + 250] for i in range(0, len(tubs), 250)]
+    for ch in chunks:
+        body += ("Eval vm_compute in map (fun c => tfirst_mismatch 0%%Z (ttrace tub_init (fst c)) (snd c)) %s.\n"
+                 % common.coq_list(["(%s, %s)" % (common.coq_list([coq_tevent(e) for e in h]),
+                                                  common.coq_list([coq_tobs(o) for o in obs])) for h, obs in ch]))
+    try:
+        vals = ctx.coq_eval("C16_tub_cases", body, requires=REQ_TUB, timeout=1500)
+    except common.CoqEvalError as e:
+        ctx.fail("correspondence-broken", "the Tub model could not be evaluated: " + str(e)[-1500:], has_input=False)
+        return
+    nbad = 0
+    flat = [t for v in vals for t in v]
+    worst = None
+    for (h, obs), (k, m) in zip(tubs, flat):
+        if k == -1:
+            ctx.traces += 1
+            continue
+        nbad += 1
+        if worst is None or len(h) < len(worst[0]):
+            worst = (h, obs, k, m)
+    if worst:
+        h, obs, k, m = worst
+        ctx.fail("correspondence/tub", "model and real Tub disagree at event %d of [%s]: model (raised+2*running+4*shut, "
+                 "reconnectors, queued starts, flags per Reconnector) = %r, real Tub %r"
+                 % (k, " ".join(impl.tev_name(e) for e in h), m, obs[k] if k < len(obs) else None),
+                 replay=dict(tub_history=[impl.tev_json(e) for e in h], at=k), has_input=False)
+    ctx.extra["tub_correspondence_cases"] = len(tubs)
+    ctx.extra["tub_correspondence_disagreements"] = nbad
 
 
 def correspond(ctx, depth, nodes, seqs, micro=(), mtree=(), real=()):
